@@ -388,4 +388,59 @@ theorem mixed_session_in_step_dec {P : Bytes → Bool} {cfg : Cfg} {dv : LineDev
       · rw [hres]; simp [expectedOp]
       · rw [hwr, hw1]; simp [opWrites, List.append_assoc]
 
+/-! ### the driver layer (`send_commands`) over the decorating device -/
+
+theorem sendCommand_exact_dec {P : Bytes → Bool} {cfg : Cfg} {dv : LineDev} (hf : Fits P cfg dv)
+    (D : Nat → Bytes → Bytes) (hD : Decorates D) (strip : Bool) (fwc : List Bytes) (c : Bytes) (hg : GoodCmd P dv c)
+    (w : Wire) (res : Bytes) (hd : Dec w res) (hres : ∀ x ∈ res, isHws x = true) (n : Nat) :
+    ∃ r w' res', sendCommand cfg (decOnWrite dv D) strip fwc c (w, ([], n)) = some (r, (w', ([], n + 2))) ∧
+      r.result = expected cfg dv strip c ∧ r.failed = failedOf fwc (expected cfg dv strip c) ∧
+      w'.writes = w.writes ++ [c, cfg.ret] ∧ Dec w' res' ∧ (∀ x ∈ res', isHws x = true) := by
+  obtain ⟨L, t', t'', w', hLws, hLnl, htt, hsend, hd', hw'⟩ := sendInput_frames_dec hf D hD c hg strip w res hd hres n
+  obtain ⟨ht', ht''⟩ := suffix_hws htt hf.trail_hws
+  have hp := processOutput_indep cfg dv c L t' strip hLws hLnl ht' hf.prompt_ne hf.prompt_nl
+  refine ⟨{ raw := L ++ dv.rbody c ++ NL :: dv.prompt ++ t',
+             result := processOutput cfg (L ++ dv.rbody c ++ NL :: dv.prompt ++ t') strip,
+             failed := failedOf fwc (processOutput cfg (L ++ dv.rbody c ++ NL :: dv.prompt ++ t') strip) },
+    w', t'', ?_, ?_, ?_, hw', hd', ht''⟩
+  · unfold sendCommand; rw [hsend]; rfl
+  · exact hp
+  · simp only [hp]; rfl
+
+theorem sendCommandsLoop_exact_dec {P : Bytes → Bool} {cfg : Cfg} {dv : LineDev} (hf : Fits P cfg dv)
+    (D : Nat → Bytes → Bytes) (hD : Decorates D) (strip : Bool) (fwc : List Bytes) (stop : Bool) :
+    ∀ (init : List Bytes), (∀ i ∈ init, GoodCmd P dv i) →
+    ∀ (w : Wire) (res : Bytes) (n : Nat), Dec w res → (∀ x ∈ res, isHws x = true) →
+      ∃ rs w' res' n', sendCommandsLoop cfg (decOnWrite dv D) strip fwc stop init (w, ([], n)) =
+          some (rs, (w', ([], n')), (sentOf stop (fun c => failedOf fwc (expected cfg dv strip c)) init).2) ∧
+        rs.map (fun r => (r.result, r.failed)) =
+          (sentOf stop (fun c => failedOf fwc (expected cfg dv strip c)) init).1.map
+            (fun c => (expected cfg dv strip c, failedOf fwc (expected cfg dv strip c))) ∧
+        w'.writes = w.writes ++
+          ((sentOf stop (fun c => failedOf fwc (expected cfg dv strip c)) init).1.map (fun i => [i, cfg.ret])).flatten ∧
+        Dec w' res' ∧ (∀ x ∈ res', isHws x = true) := by
+  intro init
+  induction init with
+  | nil => intro _ w res n hd hr; exact ⟨[], w, res, n, rfl, rfl, by simp [sentOf], hd, hr⟩
+  | cons c cs ih =>
+    intro hg w res n hd hr
+    obtain ⟨r, w1, res1, h1, hrr, hfl, hw1, hd1, hr1⟩ := sendCommand_exact_dec hf D hD strip fwc c (hg c (by simp)) w res hd hr n
+    by_cases hb : (stop && failedOf fwc (expected cfg dv strip c)) = true
+    · have hs := sentOf_cons_true (fails := fun c => failedOf fwc (expected cfg dv strip c)) cs hb
+      rw [hs]
+      refine ⟨[r], w1, res1, n + 2, ?_, ?_, ?_, hd1, hr1⟩
+      · unfold sendCommandsLoop; rw [h1]; simp only [hfl, hb, if_true]
+      · simp only [List.map_cons, List.map_nil, hrr, hfl]
+      · simp [hw1]
+    · have hb' : (stop && failedOf fwc (expected cfg dv strip c)) = false := by simpa using hb
+      have hs := sentOf_cons_false (fails := fun c => failedOf fwc (expected cfg dv strip c)) cs hb'
+      rw [hs]
+      obtain ⟨rs, w', res', n', h2, hres, hwr, hd', hr'⟩ := ih (fun j hj => hg j (by simp [hj])) w1 res1 (n + 2) hd1 hr1
+      refine ⟨r :: rs, w', res', n', ?_, ?_, ?_, hd', hr'⟩
+      · unfold sendCommandsLoop; rw [h1]; simp only [hfl, hb', Bool.false_eq_true, if_false]
+        rw [h2]; rfl
+      · simp only [List.map_cons, hrr, hfl, hres]
+      · simp only [List.map_cons, List.flatten_cons]
+        rw [hwr, hw1]; simp [List.append_assoc]
+
 end Scrapli.Chan
